@@ -96,3 +96,23 @@ mut('c04-custom-colour-name-prefix', ['C04'], 'src/encode.rs', "                
 mut('c04-bookmarks-space', ['C04'], 'src/encode.rs', "write!(writer, \",{bookmark}\")?;", "write!(writer, \", {bookmark}\")?;")
 mut('c04-version-line-upper', ['C04'], 'src/encode.rs', "writeln!(writer, \"osu file format v{}\", self.format_version)?;", "writeln!(writer, \"osu file format V{}\", self.format_version)?;")
 mut('c04-timing-meter-zero', ['C02'], 'src/encode.rs', "                props.timing_signature,\n                props.sample_bank,", "                props.timing_signature.saturating_sub(1),\n                props.sample_bank,")
+
+# ---- C03
+mut('c03-revert-F1', ['C03'], 'src/util/key_value.rs', """        let (key, value) = s.split_once(':').unwrap_or((s, ""));
+
+        Ok(Self {
+            key: key.trim().parse()?,
+            value: value.trim(),
+        })""", """        let mut split = s.split(':').map(str::trim);
+
+        Ok(Self {
+            key: split.next().unwrap_or(s.trim()).parse()?,
+            value: split.next().unwrap_or_default(),
+        })""")
+mut('c03-leadin-as-float', ['C03'], 'src/encode.rs', "            GeneralKey::AudioLeadIn,\n            self.audio_lead_in,", "            GeneralKey::AudioLeadIn,\n            self.audio_lead_in as f32,")
+mut('c03-metadata-strip-comment', ['C03'], 'src/section/metadata.rs', "let Ok(KeyValue { key, value }) = KeyValue::parse(line) else {", "let Ok(KeyValue { key, value }) = KeyValue::parse(line.trim_comment()) else {")
+mut('c03-f32-precision', ['C03'], 'src/encode.rs', "            DifficultyKey::ApproachRate,\n            self.approach_rate,", "            DifficultyKey::ApproachRate,\n            (self.approach_rate * 1000.0).round() / 1000.0,")
+mut('c03-epilepsy-always', ['C03'], 'src/encode.rs', "if self.epilepsy_warning {", "if self.epilepsy_warning || self.letterbox_in_breaks {")
+mut('c03-source-needs-title', ['C03'], 'src/encode.rs', "if !self.source.is_empty() {", "if !self.source.is_empty() && !self.title.is_empty() {")
+mut('c03-named-colour-alpha', ['C03'], 'src/section/colors/mod.rs', "Ok(Self::new(r.parse()?, g.parse()?, b.parse()?, 255))", "Ok(Self::new(r.parse()?, g.parse()?, b.parse()?, 254))")
+mut('c03-countdown-as-name', ['C03'], 'src/section/general/mod.rs', "\"2\" | \"Half speed\" => Ok(Self::HalfSpeed),", "\"2\" | \"Half speed\" => Ok(Self::DoubleSpeed),")
